@@ -10,6 +10,9 @@ mod simple_class_writer;
 mod macros;
 mod class_constants;
 
+#[cfg(feature = "verif")]
+pub mod verif;
+
 use std::fmt::Debug;
 use std::io::{Read, Seek, SeekFrom, Write};
 use anyhow::{anyhow, bail, Context, Result};
